@@ -36,6 +36,9 @@ def run(chk, program, tier):
     from .c16 import _Sub
     rules_iso.no_decorators(_Sub(chk, {'FRESH-MSG'}), program)
     rules_iso.state_deps(_Sub(chk, {'STATE-DEPS'}), program)
+    # a decode helper that writes module-level state (a cache keyed too coarsely) makes one decoded value depend on what was decoded before (C16's clause)
+    chk.rule('NO-GLOBAL-WRITE', 'no function writes module-level state (C16)')
+    rules_iso.no_global_write(_Sub(chk, {'NO-GLOBAL-WRITE'}), program)
     R.gen_tab(chk, program)
     R.gen_raise(chk, program)
     R.gen_offset(chk, program, off)
